@@ -495,10 +495,12 @@ impl SlabRouter {
             return self.put(key, value);
         }
 
-        // Log to WAL first (if configured)
-        if let Some(wal_mutex) = &self.wal {
-            let mut wal = wal_mutex.lock();
-
+        // Log to WAL first (if configured). The log mutex stays held until the in-memory apply
+        // below is done: concurrent durable writes of one key must take effect in memory in the
+        // order in which they were logged, otherwise a crash after both have returned recovers
+        // a value that readers had already seen overwritten.
+        let mut wal_guard = self.wal.as_ref().map(Mutex::lock);
+        if let Some(wal) = wal_guard.as_mut() {
             // Log embedding if present
             if let Some(TensorValue::Vector(embedding)) = value.get("_embedding") {
                 let entity_id = self.index.get_or_create(key);
@@ -517,10 +519,12 @@ impl SlabRouter {
             .map_err(|e| SlabRouterError::WalError(format!("Failed to log put: {e}")))?;
         }
 
-        // Apply to in-memory state
+        // Apply to in-memory state (still under the log mutex)
         #[cfg(neumann_verif)]
         crate::verif::yield_point("router.put_durable.after_log", key);
-        self.put(key, value)
+        let result = self.put(key, value);
+        drop(wal_guard);
+        result
     }
 
     /// Delete a value durably, logging to WAL before applying.
@@ -536,10 +540,10 @@ impl SlabRouter {
             return self.delete(key);
         }
 
-        // Log to WAL first (if configured)
-        if let Some(wal_mutex) = &self.wal {
-            let mut wal = wal_mutex.lock();
-
+        // Log to WAL first (if configured); the log mutex stays held across the in-memory apply
+        // (see `put_durable`).
+        let mut wal_guard = self.wal.as_ref().map(Mutex::lock);
+        if let Some(wal) = wal_guard.as_mut() {
             // Log embedding delete if key is in entity index
             if let Some(entity_id) = self.index.get(key) {
                 wal.append(&WalEntry::EmbeddingDelete { entity_id })
@@ -561,10 +565,12 @@ impl SlabRouter {
             .map_err(|e| SlabRouterError::WalError(format!("Failed to log delete: {e}")))?;
         }
 
-        // Apply to in-memory state
+        // Apply to in-memory state (still under the log mutex)
         #[cfg(neumann_verif)]
         crate::verif::yield_point("router.delete_durable.after_log", key);
-        self.delete(key)
+        let result = self.delete(key);
+        drop(wal_guard);
+        result
     }
 
     /// Create a checkpoint by saving a snapshot and marking WAL position.
